@@ -262,6 +262,10 @@ impl FromStr for HandRangeToken {
 
         if single_card_pair_regex.is_match(s) {
             if let Ok(card_pair) = (&s[0..4]).parse::<CardPair>() {
+                if card_pair[0] == card_pair[1] {
+                    return Err(());
+                }
+
                 return Ok(HandRangeToken::new(
                     HandRangeTokenKind::SingleCardPair(card_pair),
                     parse_probability(&s[4..]),
